@@ -20,14 +20,20 @@ RES = Tup(INT, PVal)
 def declare(reg):
     reg.sort(Ref_P=P, ChrT=Chr)
     reg.cls("P", pyclasses=["Parser", "AnyChar", "Char", "InSet", "Sequence", "Choice", "Many", "FollowedBy", "NotFollowedBy", "KeepLeft",
-                            "KeepRight", "Opt"],
-            children=List(P), char=Chr, values=Set(Chr), lower=INT, default=PVal, name=PY)
+                            "KeepRight", "Opt", "Wrapper", "Forward", "EOF", "Literal", "Until", "Map"],
+            children=List(P), char=Chr, values=Set(Chr), lower=INT, default=PVal, name=PY, chars=List(Chr), ignore_case=BOOL, value=PY, _NULL=PY)
+    reg.specfun("val_py", dict(v=PY), PVal, None)
+    reg.specfun("val_chars", dict(l=List(Chr)), PVal, None)
+    reg.specfun("val_str", dict(s=STR), PVal, None)
+    reg.exc_files.append(M)
+    reg.exc_attrs["Backtrack"] = collections.OrderedDict(msg=STR)
     reg.cls("PCtx")
     reg.interface("PCtx", "set", params=dict(self=Ref("PCtx"), pos=INT, msg=None), raises={},
                   note="Context.set only records error positions / messages")
     reg.specfun("val_chr", dict(c=Chr), PVal, None)
     reg.specfun("val_list", dict(l=List(PVal)), PVal, None)
-    reg.coercions = {(Chr.key, PVal.key): "val_chr", (List(PVal).key, PVal.key): "val_list"}
+    reg.coercions = {(Chr.key, PVal.key): "val_chr", (List(PVal).key, PVal.key): "val_list", (PY.key, PVal.key): "val_py",
+                     (List(Chr).key, PVal.key): "val_chars", (STR.key, PVal.key): "val_str"}
     # the protocol every parser follows (what a combinator may assume of its children)
     reg.interface("P", "process", params=dict(self=P, pos=INT, data=DATA, ctx=Ref("PCtx")), returns=RES,
                   requires=WFD,
@@ -109,6 +115,60 @@ def declare(reg):
                           "old(pos) <= result[0] and result[0] < len(data)"],
                  ensures_raise={"Exception": [MCH.format(n="len(rs)"), "not %s" % OK.format(p=C0, pos="ps[len(rs)]"), "len(rs) < self.lower"]},
                  **common)
+
+    # --- wrappers: exactly the child
+    for name in ("Wrapper", "Forward"):
+        reg.contract(M, name + ".process", raises={"Exception": "not %s" % L_OK}, raise_frame="unchanged", assume=["len(self.children) >= 1"],
+                     ensures=[O("result[0] == %s" % L_NP), O("result[1] == %s" % L_VL), "old(pos) <= result[0] and result[0] < len(data)"], **common)
+    # --- end of input: succeeds exactly on the terminal, consumes nothing
+    reg.specfun("val_none", dict(), PVal, None)
+    reg.coercions[(NONE.key, PVal.key)] = "val_none"
+    prim("EOF", "data[pos] is None", "pos", "val_none()")
+    # --- literal text: every character matches in turn (lower-cased input when ignore_case); consumes exactly the literal
+    reg.interface("Chr", "lower", params=dict(self=Chr), returns=Chr, pure=True, raises={}, ensures=["result == uf('chr_lower', U('Chr'), self)"])
+    LIT_OK = ("forall(k, range(0, len(self.chars)), pos + k < len(data) and data[pos + k] is not None and "
+              "(uf('chr_lower', U('Chr'), some(data[pos + k])) if self.ignore_case else some(data[pos + k])) == self.chars[k])")
+    reg.contract(M, "Literal.process", raises={"Exception": "not (%s)" % LIT_OK}, raise_frame="unchanged",
+                 locals=dict(old=INT, result=List(Opt(Chr))),
+                 loops={0: ["it_0 == self.chars", "pos == old + i_0 and old == old(pos) and pos < len(data)",
+                            "forall(k, range(0, i_0), data[old + k] is not None and some(data[old + k]) == self.chars[k])"],
+                        1: ["it_1 == self.chars", "pos == old + i_1 and old == old(pos) and pos < len(data)", "len(result) == i_1",
+                            "forall(k, range(0, i_1), data[old + k] is not None and uf('chr_lower', U('Chr'), some(data[old + k])) == self.chars[k] and result[k] == data[old + k])"]},
+                 ensures=["result[0] == old(pos) + len(self.chars)", "old(pos) <= result[0] and result[0] < len(data)",
+                          # the value: the stored value if one was given, else the literal (the text actually read when case is ignored)
+                          "implies(self.value is not self._NULL, result[1] == val_py(self.value))",
+                          "implies(self.value is self._NULL and not self.ignore_case, result[1] == val_chars(self.chars))"],
+                 **common)
+    # --- until: the parser is applied until the predicate succeeds (the predicate consumes nothing) or the parser fails
+    UCH = ("len(ps) == {n} + 1 and ps[0] == old(pos) and forall(k, range(0, {n}), not %s and %s and ps[k + 1] == %s and rs[k] == %s and ps[k + 1] < len(data))"
+           % (OK.format(p=C1, pos="ps[k]"), OK.format(p=C0, pos="ps[k]"), NP.format(p=C0, pos="ps[k]"), VL.format(p=C0, pos="ps[k]")))
+    reg.contract(M, "Until.process", locals=dict(results=List(PVal), ps=List(INT), rs=List(PVal), parser=P, pred=P), assume=TWO,
+                 ghosts=collections.OrderedDict(ps=(List(INT), "[pos]"), rs=(List(PVal), "[]")),
+                 ghost_on=[("results.append(res)", "ps.append(pos); rs.append(res)", "after")],
+                 loops={0: [UCH.format(n="len(rs)"), "pos == ps[len(rs)]", "seq_eq(results, rs)", "parser == self.children[0] and pred == self.children[1]",
+                            "0 <= pos and pos < len(data)", "old(pos) <= pos"]},
+                 raises={}, 
+                 ensures=[UCH.format(n="len(rs)"), "result[0] == ps[len(rs)]", "result[1] == val_list(results) and seq_eq(results, rs)",
+                          # it stopped because the predicate succeeds here, or the parser fails here
+                          "%s or not %s" % (OK.format(p=C1, pos="ps[len(rs)]"), OK.format(p=C0, pos="ps[len(rs)]")),
+                          "old(pos) <= result[0] and result[0] < len(data)"],
+                 **common)
+    # --- map: the child's position, the function applied to the child's value; fails if the child fails or the function raises
+    reg.external("traceback.format_exc", returns=STR)
+    reg.external("os.linesep", returns=STR, pure=True)
+    MapF = U("MapFn")
+    reg.sort(MapFn=MapF)
+    reg.classes["P"]["func"] = MapF
+    reg.classes["PCtx"] = dict(reg.classes.get("PCtx", {}), function_error=PY)
+    reg.callables = getattr(reg, "callables", {})
+    reg.callables[("P", "func")] = reg.external("<map function>", params=collections.OrderedDict(f=MapF, v=PVal), returns=PVal,
+                                                raises={"Exception": "uf('mf_raises', BOOL, f, v)"}, raise_frame="unchanged",
+                                                ensures=["result == uf('mf_value', U('PVal'), f, v)"],
+                                                note="a mapped function is deterministic in its argument and raises only Exception subclasses")
+    reg.contract(M, "Map.process", raises={"Exception": "not %s or uf('mf_raises', BOOL, self.func, %s)" % (L_OK, L_VL)}, raise_frame="unchanged",
+                 assume=["len(self.children) >= 1"], modifies=["PCtx.function_error"],
+                 ensures=[O("result[0] == %s" % L_NP), O("result[1] == uf('mf_value', U('PVal'), self.func, %s)" % L_VL),
+                          "old(pos) <= result[0] and result[0] < len(data)"], **common)
 
     # ------------------------------------------------------------------ tag expression language (insights/core/taglang.py)
     T = "insights/core/taglang.py"
